@@ -3,7 +3,7 @@ import vpl, json, os, threading
 from concurrent.futures import ThreadPoolExecutor
 
 LEVEL = "proof"
-LIBS = ["AioTheorems.vo"]
+LIBS = ["AioToy.vo"]
 SECTIONS = ["split", "fault", "long", "enc", "multi"]
 
 def jobs_for(tier):
@@ -24,7 +24,8 @@ def run(res, tier, seed, replay):
         "one Receive call is modelled for a one-link endpoint with timeout 0 (one scheduler round); the schedulers, several links, the "
         "array Receive loop and time-outs are covered by the implementation-level oracle only (multi / array sections)",
         "kernel pipe semantics, select()/EAGAIN handling and time() based time-outs are not modelled",
-        "the IV of a CFB link is assumed intact in the integrity theorem (it is not covered by the MAC: known finding tamper-iv)"]
+        "the IV of a CFB link is assumed intact in the integrity theorem for encrypted stream-mode links (it is not covered by the MAC: known finding tamper-iv, C13_integrity_iv_tamper_refuted); links without encryption and CTR links need no such premise",
+        "link_fits P (numeric side condition on maclen/blklen/buffer size, true for HMAC-SHA256/AES256/4096) for the eventual-delivery theorem"]
     vpl.proof_stage(res, LIBS)
     exe = vpl.build_harness("c13")
     drv = vpl.build_driver("C13")
